@@ -47,7 +47,13 @@ func fixedHistories() map[string][]fixedVersion {
 		return fixedVersion{"a.go": "package p\n\nfunc f(m map[" + kt + "]bool) int {\n\treturn len(deriveSet(deriveKeys(m))) + len(deriveKeysAgain(m))\n}\n",
 			"a_test.go": "package p\n\nfunc g(m map[" + kt + "]bool) int { return len(deriveKeysInTest(m)) }\n"}
 	}
+	// the user's files sort behind derived.gen.go and the package is renamed: the old derived.gen.go (and every
+	// remnant of it that is cut off inside the name of its package clause) is a file of another package
+	renamed := func(pname, kt, file string) fixedVersion {
+		return fixedVersion{file: "package " + pname + "\n\ntype T struct{ A map[" + kt + "]bool }\n\nfunc eq(a, b *T) bool { return deriveEqual(a, b) }\n\nfunc ks(t *T) int { return len(deriveSet(deriveKeys(t.A))) }\n"}
+	}
 	return map[string][]fixedVersion{
+		"package-renamed": {renamed("tool", "string", "main.go"), renamed("kit", "string", "main.go"), renamed("kit", "int", "types.go"), renamed("toolkit", "int", "types.go")},
 		"calls-in-test-file": {
 			inTest("func keys(m map[string]int) int { return len(deriveSet(deriveKeys(m))) }\n", "func eqT(a, b *T) bool { return deriveEqual(a, b) }\n"),
 			inTest("func keys(m map[int]int) int { return len(deriveSet(deriveKeys(m))) }\n", "func eqT(a, b *T) bool { return deriveEqual(a, b) }\n"),
@@ -59,7 +65,7 @@ func fixedHistories() map[string][]fixedVersion {
 		},
 		"autoname-renames": {ledger("string"), ledger("int"), ledger("string")},
 		"dedup-renames":    {twice("string"), twice("int")},
-		"deep-chain": {deep("string"), deep("int"), deep("string")},
+		"deep-chain":       {deep("string"), deep("int"), deep("string")},
 		"external-test-package": {
 			withExt("type T struct{ A int }\n\nfunc eq(a, b *T) bool { return deriveEqual(a, b) }\n"),
 			withExt("type T struct {\n\tA int\n\tB []string\n}\n\nfunc eq(a, b *T) bool { return deriveEqual(a, b) }\n"),
@@ -76,10 +82,10 @@ func fixedHistories() map[string][]fixedVersion {
 }
 
 func runFixed(cfg hx.Config, meta *hx.Meta) {
-	names := []string{"deep-chain", "external-test-package", "several-files", "calls-in-test-file", "autoname-renames", "dedup-renames"}
+	names := []string{"package-renamed", "deep-chain", "external-test-package", "several-files", "calls-in-test-file", "autoname-renames", "dedup-renames"}
 	flagsOf := map[string][]string{"autoname-renames": {"-autoname"}, "dedup-renames": {"-dedup"}}
 	hs := fixedHistories()
-	hx.Parallel(len(names), 6, func(hi int) {
+	hx.Parallel(len(names), 7, func(hi int) {
 		name := names[hi]
 		vers := hs[name]
 		args := append(append([]string{}, flagsOf[name]...), ".")
@@ -116,14 +122,14 @@ func runFixed(cfg hx.Config, meta *hx.Meta) {
 		for si, v := range vers {
 			sdir := filepath.Join(cfg.Work, fmt.Sprintf("fixed-%s-scratch", name))
 			write(sdir, v, nil, false)
-			gs := hx.Goderive(cfg.Goderive, sdir, args...)
+			gs := goderiveRun(cfg, sdir, args...)
 			sb, sex := read(sdir)
 			meta.CountSafe("fixed/" + name)
 			if gs.Exit != 0 {
 				report("c07-fixed-scratch-fails", fmt.Sprintf("version %d: goderive fails from scratch", si), v, nil, false, nil, nil, gs.Out)
 				return
 			}
-			if vet := hx.GoVet(sdir, ""); vet.Exit != 0 {
+			if vet := vetRun(sdir, ""); vet.Exit != 0 {
 				report("c07-vet-fails", fmt.Sprintf("version %d: the from-scratch result does not type-check (goderive exit 0)", si), v, nil, false, sb, sb, vet.Out)
 			}
 			// old states: the previous version's output, and remnants of it cut at a few offsets
@@ -133,7 +139,7 @@ func runFixed(cfg hx.Config, meta *hx.Meta) {
 			}
 			olds := []oldT{{prev, prevExists}}
 			if prevExists {
-				for _, k := range []int{0, len(prev) / 2} {
+				for _, k := range []int{0, 53, 54, len(prev) / 2} {
 					if k >= 0 && k < len(prev) {
 						olds = append(olds, oldT{prev[:k], true})
 					}
@@ -142,13 +148,13 @@ func runFixed(cfg hx.Config, meta *hx.Meta) {
 			for oi, o := range olds {
 				dir := filepath.Join(cfg.Work, fmt.Sprintf("fixed-%s-%d", name, oi))
 				write(dir, v, o.b, o.ex)
-				g := hx.Goderive(cfg.Goderive, dir, args...)
+				g := goderiveRun(cfg, dir, args...)
 				ab, aex := read(dir)
 				if g.Exit != 0 || aex != sex || !bytes.Equal(ab, sb) {
 					report("c07-differs-from-scratch", fmt.Sprintf("version %d, old state %d: one run over the old derived.gen.go does not leave the from-scratch result (exit %d, file exists %v, from scratch %v)", si, oi, g.Exit, aex, sex), v, o.b, o.ex, ab, sb, g.Out)
 					continue
 				}
-				g2 := hx.Goderive(cfg.Goderive, dir, args...)
+				g2 := goderiveRun(cfg, dir, args...)
 				b2, ex2 := read(dir)
 				if g2.Exit != 0 || ex2 != aex || !bytes.Equal(b2, ab) {
 					report("c07-second-run-changes", fmt.Sprintf("version %d, old state %d: a second run changes derived.gen.go (exit %d)", si, oi, g2.Exit), v, o.b, o.ex, b2, sb, g2.Out)
